@@ -77,6 +77,7 @@ class PropertyRun:
         self.assumptions = []
         self.trusted = []
         self.canaries = {"functions": 0, "refuted_false_post": 0}
+        self.not_owned = 0
 
     def say(self, s):
         print(s, flush=True)
@@ -128,9 +129,13 @@ def run_property(mod, tier, seed):
                 pr.canaries["refuted_false_post"] += 1
             elif all(x == "proved" for x in sts):
                 pr.errors.append("%s: every path end is unreachable under the contract's assumptions (vacuous proof)" % qn)
+        owns = getattr(mod, "owns", None)
         for ob in rep["obligations"]:
             res = ob["result"]
             name = ob["name"]
+            if owns is not None and not owns(base_name(name), ob["kind"]):
+                pr.not_owned += 1
+                continue
             pr.obl_total += 1
             for b in res["backends"]:
                 pr.solver_time += b["time_s"]
@@ -144,10 +149,14 @@ def run_property(mod, tier, seed):
             bname = base_name(name)
             status, model, how = res["status"], res["model"], "solver model (unbounded VC)"
             if status == "undecided" and ob["smt2"]:
-                # the solvers gave up: bounded counterexample search on a quantifier-free instance of the VC
-                st2, m2 = refute.search_text(ob["smt2"], N=4, timeout_ms=z3_ms)
+                # the solvers gave up: bounded counterexample search on a quantifier-free instance of the VC (done in the worker)
+                st2, m2 = res.get("bounded"), res.get("candidate_model")
                 if st2 == "candidate":
                     status, model, how = "candidate", m2, "model of the bounded quantifier-free instance (N=4); must reproduce natively"
+                    if ob["goal_text"].strip() == "False":
+                        # the clause was decided False on the concrete effect trace of this path; the model only has to
+                        # witness that the path is feasible
+                        status, how = "refuted", "clause is False on this path's effect trace; path feasibility witnessed by a model of the bounded instance"
             if status == "undecided":
                 pr.undecided.append(name + " " + json.dumps(res["backends"]))
                 continue
@@ -257,8 +266,14 @@ def finish(pr, mod, open_known, used_open):
         pr.say("VIOLATION property=%s replay=%s obligation=%s%s" % (pid, path, base_name(name), tail))
     for v in bounded_fail:
         pr.say("VIOLATION property=%s replay=%s bounded-check=%s" % (pid, v["replay"], v["name"]))
+    useen = {}
+    vio_bases = {base_name(n) for n, _, _ in pr.violations}
+    pr.undecided = [u for u in pr.undecided if base_name(u.split(" ")[0]) not in vio_bases]
     for u in pr.undecided:
-        pr.say("UNDECIDED property=%s obligation=%s" % (pid, u))
+        b = base_name(u.split(" ")[0])
+        useen.setdefault(b, []).append(u)
+    for b, us in useen.items():
+        pr.say("UNDECIDED property=%s obligation=%s%s" % (pid, us[0], " (+%d more paths)" % (len(us) - 1) if len(us) > 1 else ""))
     for e in pr.errors:
         pr.say("ENGINE-ERROR property=%s %s" % (pid, e))
     n_viol = len(seen) + len(bounded_fail)
@@ -315,6 +330,7 @@ def write_evidence(pr, mod, code, n_viol):
             "residual_obligations": pr.residuals,
             "bounded": [{k: v for k, v in b.items() if k not in ("violations",)} for b in pr.bounded],
             "vacuity_canaries": pr.canaries,
+            "obligations_of_these_functions_owned_by_other_properties": pr.not_owned,
             "engine_errors": pr.errors,
             "exit_code": code,
         },
